@@ -346,7 +346,7 @@ const c55MinChunk = 512 * 1024
 
 func c55FileBytes(i, size int, gen int) []byte {
 	if size == c55ConstSize {
-		return bytes.Repeat([]byte{0x55}, size)
+		return bytes.Repeat([]byte{byte(1 + gen%255)}, size)
 	}
 	b := make([]byte, size)
 	r := rand.New(rand.NewSource(int64(i*7919 + size + gen*104729)))
@@ -357,7 +357,9 @@ func c55FileBytes(i, size int, gen int) []byte {
 // c55Materialise creates the tree of script s below base. Items whose fault is target_missing are not created.
 // variant chooses the content of the large file: even = random content (seeded by variant: other chunk boundaries),
 // odd = constant content (stored uncompressed, see c55RunInproc).
-func c55Materialise(t testing.TB, base string, s *c55Script, bigItem int, variant int) *c55Tree {
+// The content of the large file also depends on run, the number of the run within the process: a chunk the
+// repository knows already (from an earlier run on the same repository) would not be saved again.
+func c55Materialise(t testing.TB, base string, s *c55Script, bigItem int, variant int, run int) *c55Tree {
 	n := len(s.Kind)
 	tr := &c55Tree{base: base, rel: make([]string, n+1), sizes: make([]int, n+1)}
 	for i := 1; i <= n; i++ {
@@ -386,7 +388,11 @@ func c55Materialise(t testing.TB, base string, s *c55Script, bigItem int, varian
 				}
 			}
 			tr.sizes[i] = size
-			err = os.WriteFile(abs, c55FileBytes(i, size, 2*variant), 0o644)
+			gen := 2 * variant
+			if i == bigItem {
+				gen += 16 * run
+			}
+			err = os.WriteFile(abs, c55FileBytes(i, size, gen), 0o644)
 		case "symlink":
 			err = os.Symlink("nowhere", abs)
 		}
@@ -890,7 +896,7 @@ func c55RunInproc(t testing.TB, e *vEnv, s *c55Script, mode string, variant int,
 		t.Fatal(err)
 	}
 	defer os.RemoveAll(side)
-	tr := c55Materialise(t, base, s, c55BigItem(s), variant)
+	tr := c55Materialise(t, base, s, c55BigItem(s), variant, run)
 	if variant%2 == 1 {
 		// the constant-content flavour of the large file is stored uncompressed in a repository with the minimal
 		// pack size: its 8 MiB chunk is a pack of its own, queued for upload as soon as it is hashed and encrypted
@@ -1183,7 +1189,7 @@ func c55Binary(t *testing.T, all []*c55Script, res *kit.Result, recs *kit.NDJSON
 		if err := os.Mkdir(base, 0o755); err != nil {
 			t.Fatal(err)
 		}
-		tr := c55Materialise(t, base, s, 0, 0)
+		tr := c55Materialise(t, base, s, 0, 0, 0)
 		plan := c55DiskPlan(s, unpriv)
 		if err := c55Chown(base, uid); err != nil {
 			t.Fatal(err)
